@@ -75,34 +75,55 @@ def accDrop (sector : Nat) : List Claim → SpaceMap → Except Err SpaceMap
     if c.sector ≠ sector then .error .illegalArgument
     else accDrop sector rest (addSpace m sector c.size 0)
 
-def accSectorClaims (claims : List (Nat × Claim)) (provider : Nat) (newExp : Int) :
-    List SectorClaim → SpaceMap → Except Err SpaceMap
-  | [], m => .ok m
-  | sc :: rest, m =>
-    match getClaims claims provider (sc.maintain ++ sc.drop) with
-    | .error e => .error e
-    | .ok _ =>
-      match getClaims claims provider sc.maintain with
-      | .error e => .error e
-      | .ok mcs =>
-        match accMaintain sc.sector newExp mcs m with
-        | .error e => .error e
-        | .ok m1 =>
-          match getClaims claims provider sc.drop with
-          | .error e => .error e
-          | .ok dcs =>
-            match accDrop sc.sector dcs m1 with
-            | .error e => .error e
-            | .ok m2 => accSectorClaims claims provider newExp rest m2
+/-- the check added by the fix of finding F2 (flag `rc` = the source has it): a claim id may be
+    declared (maintained or dropped) at most once per message. Returns the ids seen so far. -/
+def checkDeclared (rc : Bool) (seen : List Nat) : List Nat → Except Err (List Nat)
+  | [] => .ok seen
+  | id :: rest =>
+    if rc ∧ id ∈ seen then .error .illegalArgument else checkDeclared rc (id :: seen) rest
 
-/-- `validate_extension_declarations` (no check that a claim id is listed once) -/
-def validateDecls (claims : List (Nat × Claim)) (provider : Nat) :
-    List Decl → SpaceMap → Except Err SpaceMap
-  | [], m => .ok m
-  | d :: rest, m =>
-    match accSectorClaims claims provider d.newExpiration d.withClaims m with
+def accSectorClaims (rc : Bool) (claims : List (Nat × Claim)) (provider : Nat) (newExp : Int) :
+    List SectorClaim → SpaceMap → List Nat → Except Err (SpaceMap × List Nat)
+  | [], m, seen => .ok (m, seen)
+  | sc :: rest, m, seen =>
+    match checkDeclared rc seen (sc.maintain ++ sc.drop) with
     | .error e => .error e
-    | .ok m1 => validateDecls claims provider rest m1
+    | .ok seen1 =>
+      match getClaims claims provider (sc.maintain ++ sc.drop) with
+      | .error e => .error e
+      | .ok _ =>
+        match getClaims claims provider sc.maintain with
+        | .error e => .error e
+        | .ok mcs =>
+          match accMaintain sc.sector newExp mcs m with
+          | .error e => .error e
+          | .ok m1 =>
+            match getClaims claims provider sc.drop with
+            | .error e => .error e
+            | .ok dcs =>
+              match accDrop sc.sector dcs m1 with
+              | .error e => .error e
+              | .ok m2 => accSectorClaims rc claims provider newExp rest m2 seen1
+
+/-- ascending, de-duplicated sector numbers of a declaration (the bitfield) -/
+def insertSorted (x : Nat) : List Nat → List Nat
+  | [] => [x]
+  | y :: t => if x < y then x :: y :: t else if x = y then y :: t else y :: insertSorted x t
+
+def declSectors (d : Decl) : List Nat :=
+  (d.withClaims.map (fun sc => sc.sector) ++ d.sectors).foldl (fun acc x => insertSorted x acc) []
+
+/-- `validate_extension_declarations`.  Flags: `rc` = a claim id declared twice in the message is
+    rejected (fix of F2), `rs` = a sector listed in more than one declaration is rejected (fix of
+    F2b).  The unchanged source has neither check. -/
+def validateDeclsF (rc rs : Bool) (claims : List (Nat × Claim)) (provider : Nat) :
+    List Decl → SpaceMap → List Nat → List Nat → Except Err SpaceMap
+  | [], m, _, _ => .ok m
+  | d :: rest, m, seenC, seenS =>
+    if rs ∧ (declSectors d).any (fun x => x ∈ seenS) then .error .illegalArgument
+    else match accSectorClaims rc claims provider d.newExpiration d.withClaims m seenC with
+      | .error e => .error e
+      | .ok (m1, seenC1) => validateDeclsF rc rs claims provider rest m1 seenC1 (declSectors d ++ seenS)
 
 /-- `validate_extended_expiration` + `extend_simple_qap_sector` -/
 def extendOne (epoch newExp : Int) (m : SpaceMap) (sec : Sector) : Except Err Sector :=
@@ -126,14 +147,6 @@ def extendOne (epoch newExp : Int) (m : SpaceMap) (sec : Sector) : Except Err Se
                               verifiedWeight := maintain * newDuration }
     else .ok { sec with expiration := newExp, powerBase := epoch }
 
-/-- ascending, de-duplicated sector numbers of a declaration (the bitfield) -/
-def insertSorted (x : Nat) : List Nat → List Nat
-  | [] => [x]
-  | y :: t => if x < y then x :: y :: t else if x = y then y :: t else y :: insertSorted x t
-
-def declSectors (d : Decl) : List Nat :=
-  (d.withClaims.map (fun sc => sc.sector) ++ d.sectors).foldl (fun acc x => insertSorted x acc) []
-
 def extendSectors (epoch newExp : Int) (m : SpaceMap) :
     List Nat → List (Nat × Sector) → Except Err (List (Nat × Sector))
   | [], secs => .ok secs
@@ -153,11 +166,20 @@ def extendDecls (epoch : Int) (m : SpaceMap) :
     | .error e => .error e
     | .ok secs' => extendDecls epoch m rest secs'
 
-/-- `extend_sector_expiration2` -/
-def extendMessage (claims : List (Nat × Claim)) (provider : Nat) (epoch : Int)
+/-- `extend_sector_expiration2` with explicit fix flags -/
+def extendMessageF (rc rs : Bool) (claims : List (Nat × Claim)) (provider : Nat) (epoch : Int)
     (secs : List (Nat × Sector)) (decls : List Decl) : Except Err (List (Nat × Sector)) :=
-  match validateDecls claims provider decls [] with
+  match validateDeclsF rc rs claims provider decls [] [] [] with
   | .error e => .error e
   | .ok m => extendDecls epoch m decls secs
+
+/-- do the sources carry the fixes? (regenerated from actors/miner/src/lib.rs on every run) -/
+def rejectDupClaims : Bool := BA.Gen.minerExtRejectsDuplicateClaims
+def rejectDupSectors : Bool := BA.Gen.minerExtRejectsDuplicateSectors
+
+/-- `extend_sector_expiration2` as the current source has it -/
+def extendMessage (claims : List (Nat × Claim)) (provider : Nat) (epoch : Int)
+    (secs : List (Nat × Sector)) (decls : List Decl) : Except Err (List (Nat × Sector)) :=
+  extendMessageF rejectDupClaims rejectDupSectors claims provider epoch secs decls
 
 end BA.SectorExt
